@@ -16,6 +16,7 @@ import (
 
 	abci "github.com/cometbft/cometbft/abci/types"
 	cmtproto "github.com/cometbft/cometbft/proto/tendermint/types"
+	cosmosdb "github.com/cosmos/cosmos-db"
 	"github.com/cosmos/cosmos-sdk/client"
 	"github.com/cosmos/cosmos-sdk/crypto/keys/secp256k1"
 	sdk "github.com/cosmos/cosmos-sdk/types"
@@ -46,10 +47,12 @@ func Actor(i int) sdk.AccAddress { return sdk.AccAddress(actorKeys[i].PubKey().A
 
 // Node is one application instance.
 type Node struct {
-	App    *app.OsmosisApp
-	Height int64 // last committed height (0 before the first block)
-	Time   time.Time
-	dir    string
+	App     *app.OsmosisApp
+	Height  int64 // last committed height (0 before the first block)
+	Time    time.Time
+	dir     string
+	db      cosmosdb.DB
+	oldDirs []string
 }
 
 // BlockResult is everything a peer can observe about one block.
@@ -69,7 +72,8 @@ func NewNode(bootstrap func(n *Node, ctx sdk.Context)) *Node {
 		panic(err)
 	}
 	_ = os.MkdirAll(dir+"/data", 0o755)
-	n := &Node{App: newApp(dir), dir: dir, Time: Base}
+	db := cosmosdb.NewMemDB()
+	n := &Node{App: newApp(dir, db), dir: dir, db: db, Time: Base}
 	if err := initChain(n.App, defaultGenesis(n.App), 1, Base); err != nil {
 		panic(err)
 	}
@@ -100,7 +104,8 @@ func NewNodeFromExport(appState []byte, height int64, t time.Time) (*Node, error
 		panic(err)
 	}
 	_ = os.MkdirAll(dir+"/data", 0o755)
-	n := &Node{App: newApp(dir), dir: dir, Time: t, Height: height}
+	db := cosmosdb.NewMemDB()
+	n := &Node{App: newApp(dir, db), dir: dir, db: db, Time: t, Height: height}
 	if err = initChain(n.App, appState, height+1, t); err != nil {
 		n.Close()
 		return nil, err
@@ -112,9 +117,50 @@ func (n *Node) Close() {
 	if n.App != nil {
 		_ = n.App.Close()
 	}
+	for _, d := range n.oldDirs {
+		os.RemoveAll(d)
+	}
 	if n.dir != "" {
 		os.RemoveAll(n.dir)
 	}
+}
+
+// Restart models a crash after the last commit: the application object is dropped with everything it holds in
+// memory and a new one is built on the same database.
+func (n *Node) Restart() {
+	// a new home directory: the wasm VMs of the dropped instance keep their directory lock (it holds no state here)
+	dir, err := os.MkdirTemp("", "c19-node")
+	if err != nil {
+		panic(err)
+	}
+	_ = os.MkdirAll(dir+"/data", 0o755)
+	n.oldDirs = append(n.oldDirs, n.dir)
+	n.dir = dir
+	n.App = newApp(n.dir, n.db)
+	if got := n.App.LastBlockHeight(); got != n.Height {
+		panic(fmt.Sprintf("restart: application reloaded height %d, expected %d", got, n.Height))
+	}
+}
+
+// Noise runs transactions the way a live node does outside block execution - mempool admission (CheckTx), gas
+// estimation (Simulate, which executes the messages on a discarded branch) and proposal validation
+// (ProcessProposal) - and ignores every answer: none of it may influence what the next block produces.
+func (n *Node) Noise(dt time.Duration, blockTxs, ghostTxs [][]byte) {
+	defer func() { _ = recover() }()
+	for _, tx := range append(append([][]byte{}, ghostTxs...), blockTxs...) {
+		func() {
+			defer func() { _ = recover() }()
+			_, _, _ = n.App.BaseApp.Simulate(tx)
+		}()
+		func() {
+			defer func() { _ = recover() }()
+			_, _ = n.App.BaseApp.CheckTx(&abci.RequestCheckTx{Tx: tx, Type: abci.CheckTxType_New})
+		}()
+	}
+	func() {
+		defer func() { _ = recover() }()
+		_, _ = n.App.ProcessProposal(&abci.RequestProcessProposal{Height: n.Height + 1, Time: n.Time.Add(dt), Txs: blockTxs})
+	}()
 }
 
 // Fund is the faucet used by bootstraps.
